@@ -137,6 +137,19 @@ Definition check_ops (h : dregs FA * list dop * list (res (databox FA))) : nat :
   | Some i => S i
   end.
 
+(* as check_ops; then EVERY databox of the session after the history is compared (the model has value semantics: an
+   implementation whose databoxes share mutable items shows up here).  1000 = the step results agree but the final
+   state of some databox differs *)
+Definition check_ops_all (h : dregs FA * list dop * list (res (databox FA)) * option (list (databox FA))) : nat :=
+  let '(init, ops, outs, finals) := h in
+  match check_ops (init, ops, outs) with
+  | O => match finals with
+         | None => 0%nat
+         | Some fin => if list_eqb databox_eqb (fst (drun FA init ops)) fin then 0%nat else 1000%nat
+         end
+  | c => c
+  end.
+
 End Cases.
 
 (* indices and codes of the failing cases *)
